@@ -43,10 +43,13 @@ pub fn shrink(t0: &Trace, v0: &Violation, budget: u64) -> Shrunk {
     let mut best = t0.clone();
     let mut bestv = v0.clone();
     // the trace that actually failed may be the env-B variant or a fault variant: start from it
+    // bounded by candidate count and by wall-clock (a large-configuration candidate takes seconds)
+    let started = std::time::Instant::now();
     let accept = |cand: &Trace, best: &mut Trace, bestv: &mut Violation, tests: &mut u64| -> bool {
-        if *tests >= budget {
+        if *tests >= budget || started.elapsed().as_secs() >= 25 {
             return false;
         }
+        crate::sup::heartbeat();
         match still_fails(cand, &prop, &oracle, tests) {
             Some((v, tr)) => {
                 *best = tr;
@@ -120,6 +123,14 @@ pub fn shrink(t0: &Trace, v0: &Violation, budget: u64) -> Shrunk {
             c.events[i].observer = false;
             accept(&c, &mut best, &mut bestv, &mut tests);
         }
+        // shorter macro event
+        while best.events.get(i).map(|e| e.op.code == Code::Fill && e.op.n > 1).unwrap_or(false) {
+            let mut c = best.clone();
+            c.events[i].op.n /= 2;
+            if !accept(&c, &mut best, &mut bestv, &mut tests) {
+                break;
+            }
+        }
         // smaller key
         let k = best.events.get(i).map(|e| e.op.k).unwrap_or(0);
         if k > 1 {
@@ -175,6 +186,13 @@ pub fn shrink(t0: &Trace, v0: &Violation, budget: u64) -> Shrunk {
     }
     // 4. configuration simplification: smaller capacities
     for i in 0..best.header.sizes.len().min(3) {
+        while best.header.sizes[i] > 16 && tests < budget {
+            let mut c = best.clone();
+            c.header.sizes[i] /= 2;
+            if !accept(&c, &mut best, &mut bestv, &mut tests) {
+                break;
+            }
+        }
         while best.header.sizes[i] > 1 && tests < budget {
             let mut c = best.clone();
             c.header.sizes[i] -= 1;
